@@ -138,6 +138,12 @@ pub proof fn axiom_utf8_drop_ascii(b: Seq<u8>)
     requires is_utf8(b), b.len() > 0, b.last() < 0x80u8
     ensures is_utf8(b.drop_last())
 {}
+// `str::len` (byte length)
+#[verifier::external_body]
+pub fn str_byte_len(s: &str) -> (r: usize)
+    ensures r == str_bytes(s).len()
+{ s.len() }
+
 // ASCII is UTF-8
 #[verifier::external_body]
 pub proof fn axiom_ascii_utf8(b: Seq<u8>)
